@@ -1220,6 +1220,38 @@ static void entry_tests()
   }
 }
 
+// ---------------------------------------------------------------- addresses of sandbox functions (C02)
+// The tainted function pointer the application obtains for a sandbox function designates that
+// function INSIDE the sandbox (its table index), never the host-side entry point used to invoke it -
+// before the function was ever called, after it was called, and when asked again.
+static void fnaddr_tests()
+{
+  using RFn = int* (*)(int);
+  auto fcell = sb->malloc_in_sandbox<RFn>();
+  GP* rawf = reinterpret_cast<GP*>(fcell.UNSAFE_unverified());
+  long want = sb->get_sandbox_impl()->func_index("ret_ptr");
+  auto one = [&](const char* when) {
+    W rep = -1, cellrep = -1;
+    *rawf = (GP)0xBEEF;
+    const char* r = guarded([&] {
+      auto fa = sb->get_sandbox_function_address(ret_ptr);
+      rep = (W)fa.UNSAFE_sandboxed(*sb);
+      *fcell = fa;
+      cellrep = (W)*rawf;
+    });
+    tr::Ev e("fnaddr");
+    e.str("when", when).str("out", r).num("want", want).wide("rep", rep).wide("cellrep", cellrep);
+    out.put(e);
+  };
+  one("before the first call");
+  one("asked again");
+  g_ret_rep = 0;
+  guarded([&] { sb->invoke_sandbox_function(ret_ptr, 0); });
+  one("after a call");
+  guarded([&] { sb->invoke_sandbox_function(ret_ptr, 0); });
+  one("after a second call");
+}
+
 #ifdef VM_GRANT_DENY
 // ---------------------------------------------------------------- handing application buffers over (C02)
 // copy_memory_or_grant_access is the one route by which a RAW application pointer is given to the
@@ -1325,6 +1357,7 @@ int main(int argc, char** argv)
     chain_tests(thorough);
   } else if (mode == "entry") {
     entry_tests();
+    fnaddr_tests();
 #ifdef VM_GRANT_DENY
     grant_tests();
 #endif
